@@ -44,7 +44,7 @@ def extra(v, suite, ops, rnd, tier, h, d):
     common.write_ndjson(req, batches)
     rc, txt, _ = common.run([h, "ops", req, out], timeout=900)
     if rc != 0:
-        raise Infra("harness ops failed: " + txt[-2000:])
+        raise common.harness_failure(txt)
     res = {x["id"]: x for x in common.read_ndjson(out)}
     pairs, left_out = [], 0
     for i, (s, t, ix, cl) in enumerate(plan):
